@@ -161,6 +161,17 @@ breaking('F5-clamp-after-sqrt', {'C13': 'F5', 'C05': 'F5'}, edit=[(M + 'entangle
 breaking('AR2-swapped-reshape', {'C05': 'AR2'}, edit=[(M + 'entangle/_misc.py', "tmp0 = rho.reshape(dimA, dimB, dimA, dimB).transpose(0,3,2,1).reshape(dimA*dimB,dimA*dimB)", "tmp0 = rho.reshape(dimB, dimA, dimB, dimA).transpose(0,3,2,1).reshape(dimA*dimB,dimA*dimB)")])
 breaking('W7-theta-overlap', {'C02': 'W7'}, edit=[(M + 'manifold/_stiefel.py', "        theta = theta[:,:(-rank)].reshape(batch, -1, 2)", "        theta = theta[:,rank:].reshape(batch, -1, 2)")])
 breaking('G2-swapped-pads', {'C02': 'G2'}, edit=[(M + 'manifold/_internal.py', "            mat = numqi.gellmann.gellmann_basis_to_matrix(torch.concat([tmp0, theta, tmp1], axis=1)).imag\n        else:\n            tmp0 = torch.zeros(N1, 1, dtype=theta.dtype, device=device)\n            mat = 1j*numqi.gellmann.gellmann_basis_to_matrix(torch.concat([theta, tmp0], axis=1))\n        tmp0 = torch.eye(dim, dtype=theta.dtype, device=device)\n        tmp1 = torch.linalg.inv(", "            mat = numqi.gellmann.gellmann_basis_to_matrix(torch.concat([tmp1, theta, tmp0], axis=1)).imag\n        else:\n            tmp0 = torch.zeros(N1, 1, dtype=theta.dtype, device=device)\n            mat = 1j*numqi.gellmann.gellmann_basis_to_matrix(torch.concat([theta, tmp0], axis=1))\n        tmp0 = torch.eye(dim, dtype=theta.dtype, device=device)\n        tmp1 = torch.linalg.inv(")])
+breaking('GR2-quaternion-sign', {'C14': 'GR2'}, edit=[(M + 'group/_internal.py', "'k j -i -1'", "'k j i -1'")])
+breaking('GR3-cyclic-circulant', {'C14': 'GR3'}, edit=[(M + 'group/_internal.py', "    ret = np.array(tuple(tuple(x) for x in np.remainder(tmp0[:,np.newaxis] + tmp0, n).tolist()), dtype=np.int64)", "    ret = scipy.linalg.circulant(tmp0).T")])
+breaking('HM2-conj-on-wrong-factor', {'C14': 'HM2'}, edit=[(M + 'group/_internal.py', "z0 = EVC.T.conj() @ np0 @ EVC", "z0 = EVC.T @ np0 @ EVC.conj()")])
+breaking('H6-copied-sign-cache', {'C08': 'H6'}, edit=[(M + 'gate/_pauli.py', "        ret = PauliOperator(tmp0)\n        return ret\n\n    def __str__", "        ret = PauliOperator(tmp0)\n        ret._str, ret._sign, ret._np_list = self._str, self._sign, self._np_list\n        return ret\n\n    def __str__")])
+breaking('SH4-dropped-ellipsis', {'C08': 'SH4'}, edit=[(M + 'gate/_pauli.py', "        np0 = np0[...,2:]\n    assert np0.shape[-1]>=2", "        np0 = np0[2:]\n    assert np0.shape[-1]>=2")])
+breaking('O4-external-F2-write', {'C10': 'O4', 'C08': 'O4'}, edit=[(M + 'random/_spf2.py', "    ret = PauliOperator(F2)\n    return ret", "    ret = PauliOperator(F2)\n    ret.F2[0] = ret.F2[0]\n    return ret")])
+breaking('C2-stale-beta', {'C06': 'C2'}, edit=[(M + 'entangle/cha.py', "            self._rand_init_state(np_rng, num_init_retry)\n        beta_history = [self._cvxpy_solve()]", "            beta_history = [self._rand_init_state(np_rng, num_init_retry)]\n        else:\n            beta_history = [self._cvxpy_solve()]")])
+breaking('O1-del-cached-list', {'C06': 'O1'}, patch='/verif/selftest/patches/seed_c06_r2m2.diff')
+breaking('SH1-boundary-broadcast', {'C06': 'SH1'}, edit=[(M + 'entangle/_misc.py', "    tmp0 = (np.linalg.eigvalsh(dm) - 1/N0)/dm_norm.reshape(-1,1)\n    beta_l = -1/(N0*tmp0[:,-1])\n    beta_u = -1/(N0*tmp0[:,0])", "    tmp0 = dm_norm/(1 - N0*np.linalg.eigvalsh(dm))\n    beta_l = tmp0[:,-1]\n    beta_u = tmp0[:,0]")])
+breaking('M3-decode-prefix-shape', {'C11': 'M3'}, edit=[(M + 'sim/state.py', "ind1a = np.unravel_index(ind1, tuple(shape[x] for x in keep_dim))", "ind1a = np.unravel_index(ind1, shape[:len(keep_dim)])")])
+breaking('MC1-coarse-memo-key', {'C05': 'MC1'}, patch='/verif/selftest/patches/seed_c05_r2m1.diff')
 breaking('refix-get_gme_2qubit', {'C13': 'F2', 'C05': 'F2'}, patch_reverse='fix_78cd862.diff')
 
 # ---- textual breaking edits, one per rule family
